@@ -90,6 +90,7 @@ class H1Tempo(Case):
         es = [inp.int("e%d" % i, 0, N) for i in range(self.ncalls)]
         t0 = hs.as_time(start, 0, dt)
         obj = hs.make_tempo(d, K, rho0, infl, P1, P2, t0, dt)
+        obj.get_dynamics()                # read-out BEFORE the first compute must not matter either
         obs = []
         for i, e in enumerate(es):
             ret = obj.compute(hs.as_time(start, e, dt), progress_type="silent")
@@ -159,6 +160,7 @@ class H1MeanField(Case):
         es = [inp.int("e%d" % i, 0, N) for i in range(self.ncalls)]
         t0 = hs.as_time(start, 0, dt)
         obj = hs.make_mean_field_tempo(d, K, rho0, infl, A1, B1, A2, t0, dt, f0, eom)
+        obj.get_dynamics()                # read-out BEFORE the first compute must not matter either
         for e in es:
             obj.compute(hs.as_time(start, e, dt), progress_type="silent")
             obj.get_dynamics()
@@ -213,6 +215,7 @@ class H1PtTebd(Case):
         ctr = _tebd_controls(inp, [(1, False), (2, True), (N, False)])
         es = [inp.int("e%d" % i, 0, N) for i in range(self.ncalls)]
         obj = hs.make_pt_tebd(v0, hs.as_time(start, 0, dt), 0, dt, ctr)
+        obj.get_augmented_mps()           # read-out BEFORE the first compute (returns the initial chain)
         for e in es:
             obj.compute(e, progress_type="silent")
             obj.get_results()
@@ -271,6 +274,7 @@ def _retry_history(obj, targets, time_of):
     """compute(target) for each target; a call that fails with the injected UserFault is
     repeated once.  Returns obligations if the history ends early, else None."""
     retried = False
+    obj.get_dynamics()                    # read-out before the first compute
     for e in targets:
         T = time_of(e)
         try:
@@ -287,6 +291,44 @@ def _retry_history(obj, targets, time_of):
             # the repeated call returned normally, but the object was left inconsistent
             return [Ob.holds("call after the repeated call raised %s" % type(ex).__name__, False, key="retry_after_fault")]
     return None
+
+
+class H2TempoInfluence(Case):
+    """Tempo.compute: the user-supplied bath correlation function (evaluated by Tempo._influence -> influence_matrix, here the
+    influence callable of the real TempoBackend) raises once at a symbolic call index; compute is called again."""
+    functions = H2Tempo.functions
+    stubs = H2Tempo.stubs + ("evaluating the influence callable stands for evaluating the user's spectral density / correlation function",)
+    assumptions = ("the failure is transient: the user callable raises exactly once",)
+
+    def __init__(self, where, N, K, dt=0.5):
+        self.where, self.N, self.K, self.dt = where, N, K, dt
+        ninit = 1 if K is None else K + 1        # influence evaluations of initialize_mps_mpo
+        self.range = (0, ninit - 1) if where == "in_initialize" else (ninit, N)
+        self.id = "H2/tempo_correlation_fault_%s/N%d_K%s" % (where, N, K)
+        self.bounds = {"d": 2, "N": N, "dkmax": K, "fault_call_index": "%d..%d" % self.range, "calls": "compute(e1); compute(N)"}
+        self.env = _tempo_env(N)
+        self.timeout_s = 300
+        self.first_timeout_s = _INSTANCE_FIRST
+
+    def run(self, inp):
+        d, N, K, dt = 2, self.N, self.K, self.dt
+        infl, P1, P2, rho0, start = _tempo_inputs(inp, d, K, N)
+        plan = hs.FaultPlan(inp.int("fault", self.range[0], self.range[1]))
+
+        def influence(dk):
+            plan.tick("influence(%d)" % dk)
+            return infl(dk)
+        targets = [inp.int("e1", 0, N), N]
+        obj = hs.make_tempo(d, K, rho0, influence, P1, P2, hs.as_time(start, 0, dt), dt, None)
+        out = _retry_history(obj, targets, lambda e: hs.as_time(start, e, dt))
+        if out is not None:
+            return out
+        ref = hs.make_tempo(d, K, rho0, infl, P1, P2, hs.as_time(start, 0, dt), dt, None)
+        ref.compute(hs.as_time(start, N, dt), progress_type="silent")
+        gt, gs = hs.dyn_lists(obj.get_dynamics())
+        rt, rs = hs.dyn_lists(ref.get_dynamics())
+        key = "retry_after_fault" if plan.fired is not None else "fault_free"
+        return _eq_lists("times", gt, rt, key) + _eq_lists("states", gs, rs, key)
 
 
 def _mf_kind_calls(kind, nsys):
@@ -430,8 +472,11 @@ class H3Gibbs(Case):
         if self.coupling != "zero":
             ck = [inp.real("c%d" % k) for k in range(2 * self.n_steps + 2)]
         obj = self._make(inp, G, ck)
+        obj.get_dynamics()                # read-out BEFORE the first compute must not matter either
         for _ in range(self.calls):
             obj.compute(progress_type="silent")
+            obj.get_dynamics()
+            obj.get_state()
         ref = self._make(inp, G, ck)
         ref.compute(progress_type="silent")
         gt, gs = hs.dyn_lists(obj.get_dynamics())
@@ -441,6 +486,64 @@ class H3Gibbs(Case):
         obs = [Ob.eq("get_state (cross-multiplied by the traces)", np.multiply(a, np.trace(b)), np.multiply(b, np.trace(a)), key="state")]
         obs += _eq_lists("times", gt, rt, "dynamics") + _eq_lists("states", gs, rs, "dynamics")
         obs.append(Ob.holds("last time is n_steps*dt", len(rt) == self.n_steps + 1, key="grid"))
+        return obs
+
+
+_GIBBS_FAULTS = {
+    # evaluations of the bath correlation integral (coefficients(k)) in call order: 0,1 = coefficients(0) for the first
+    # half-step tensor of initialise(); 2,3 = coefficients(1), coefficients(0) for the first influence tensor, evaluated
+    # AFTER initialise() has appended to backend.data; 4.. = the one new long-range coefficient of every compute_step
+    "initialise_head": lambda n: (0, 1),
+    "initialise_tail": lambda n: (2, 3),
+    "step": lambda n: (4, 4 + n - 3),
+}
+
+
+class H2Gibbs(Case):
+    """GibbsTempo.compute(): the user-supplied bath correlation function (correlation_2d_integral, here the coefficient
+    callable handed to the real TIBaseBackend) raises once at a symbolic call index; compute() is called again."""
+    functions = H3Gibbs.functions
+    stubs = H3Gibbs.stubs + ("correlations.correlation_2d_integral(matsubara=True) -> real symbols c_k; evaluating it stands for "
+                             "evaluating the user's spectral density / correlation function",)
+    assumptions = ("the failure is transient: the user callable raises exactly once",)
+    env = hs.GIBBS_ENV
+
+    def __init__(self, where, n_steps):
+        self.where, self.n_steps = where, n_steps
+        self.id = "H2/gibbs_correlation_fault_%s/n%d" % (where, n_steps)
+        lo, hi = _GIBBS_FAULTS[where](n_steps)
+        self.bounds = {"d": 2, "n_steps": n_steps, "fault_call_index": "%d..%d" % (lo, hi)}
+        self.timeout_s = 300
+        self.first_timeout_s = _INSTANCE_FIRST
+
+    def run(self, inp):
+        d, n = 2, self.n_steps
+        G = inp.arr("G", (d, d))
+        ck = [inp.real("c%d" % k) for k in range(2 * n + 2)]
+        lo, hi = _GIBBS_FAULTS[self.where](n)
+        plan = hs.FaultPlan(inp.int("fault", lo, hi))
+
+        def coeffs(k):
+            plan.tick("correlation_2d_integral(k=%d)" % k)
+            return ck[k]
+        obj = hs.make_gibbs(d, n, G, coeffs, (0.5, -0.5))
+        obj.get_dynamics()
+        try:
+            obj.compute(progress_type="silent")
+            return [Ob.holds("fault was injected", False, key="harness")]
+        except hs.UserFault:
+            try:
+                obj.compute(progress_type="silent")
+            except Exception as ex:      # noqa  "or fails again" is accepted by the property
+                return [Ob.holds("repeated call failed again (%s)" % type(ex).__name__, True, key="retry_after_fault")]
+        ref = hs.make_gibbs(d, n, G, (lambda k: ck[k]), (0.5, -0.5))
+        ref.compute(progress_type="silent")
+        gt, gs = hs.dyn_lists(obj.get_dynamics())
+        rt, rs = hs.dyn_lists(ref.get_dynamics())
+        a, b = gs[-1], rs[-1]
+        obs = [Ob.eq("get_state (cross-multiplied by the traces)", np.multiply(a, np.trace(b)), np.multiply(b, np.trace(a)),
+                     key="retry_after_fault")]
+        obs += _eq_lists("times", gt, rt, "retry_after_fault") + _eq_lists("states", gs, rs, "retry_after_fault")
         return obs
 
 
@@ -583,6 +686,7 @@ class H1PtTebdReal(Case):
         es = [inp.int("e%d" % i, 0, N) for i in range(2)]
         t0 = hs.as_time(start, 0, dt)
         obj = hs.make_pt_tebd_real(mk_mps(), pts, None, t0, 0, dt, (), self.sites)
+        obj.get_augmented_mps()           # read-out BEFORE the first compute (returns the initial chain)
         obs = []
         for i, e in enumerate(es):
             try:
@@ -622,6 +726,8 @@ def cases(tier):
            H2MeanField("before_network", 2, 1, pre=False, nsys=2),
            # fault inside the FIRST step of a fresh object (step counter 0), no memory cut-off, steps after the retry
            H2MeanField("in_compute_field", 3, None, pre=False), H2Tempo(3, None, pre=False)]
+    cs += [H2Gibbs(w, 4) for w in _GIBBS_FAULTS]
+    cs += [H2TempoInfluence(w, 3, K) for w in ("in_initialize", "in_step") for K in (None, 1)]
     # H3 fixed-end methods (pt_tempo_compute_when_finished, gibbs_compute_twice: expected defects)
     cs += [H3PtTempo(q, 3, K) for q in _PT_SEQS for K in (None, 1)]
     cs += [H3Gibbs(2, "zero"), H3Gibbs(3, "zero"), H3Gibbs(3, "sym"), H3Gibbs(4, "zero", calls=3)]
@@ -637,6 +743,8 @@ def cases(tier):
                H2MeanField("before_network", 2, None, pre=False, nsys=3), H1MeanField(2, 1, ncalls=2, nsys=2)]
         cs += [H3PtTempo(q, 4, 2) for q in _PT_SEQS] + [H3PtTempo("compute_get_get", 4, 1), H3PtTempo("get_twice", 4, None)]
         cs += [H3Gibbs(4, "sym"), H3Gibbs(5, "zero"), H3Gibbs(2, "sym", calls=3)]
+        cs += [H2Gibbs(w, n) for w in _GIBBS_FAULTS for n in (3, 6)]
+        cs += [H2TempoInfluence(w, 4, 2) for w in ("in_initialize", "in_step")]
         cs += [H4Restart(5, c) for c in _RESTART_CONTROLS]
         cs += [H4RestartReal(3, 2, sites=3, chi=2, ptbond=2, controls=True), H4RestartReal(3, 1, sites=3, chi=1, ptbond=2),
                H4RestartReal(3, 2, sites=2, chi=2, ptbond=2, controls="pre_at_r")]
